@@ -335,6 +335,12 @@ func Eq(a, b *Term) *Term {
 	if a == b {
 		return TrueT
 	}
+	if a.Op != OpConst && b.Op != OpConst {
+		// structurally identical (small) terms are equal
+		if ka := a.Key(); ka != "" && ka == b.Key() {
+			return TrueT
+		}
+	}
 	if a.Op == OpConst && b.Op == OpConst {
 		if a.S.K == SFP64 || a.S.K == SFP32 {
 			an, bn := isNaNConst(a), isNaNConst(b)
